@@ -100,6 +100,13 @@ def evaluate(sc, O, O0, builtin_codes):
         if codes is not None:
             fdir = (c, codes)
             break
+    # C05 (literal reading): ANY bare file directive among the leading comments should silence the file; the code
+    # only looks at the first file directive (a unit test pins "first wins" for two coded ones)
+    if fdir is not None and fdir[1] and O:
+        for c in leading:
+            if c is not fdir[0] and directive_codes(fw, c) == []:
+                fails.append(("C05.bare-directive-after-coded-one", "a bare file directive follows a coded one; the file is not silenced"))
+                break
     # C05: a bare leading file directive silences everything
     if fdir is not None and not fdir[1]:
         if O:
